@@ -149,7 +149,7 @@ fn try_rewrite_stmts_for_tailrec_without_using_return_value(
   }
 }
 
-fn tail_rec_param_name(name: &str) -> String {
+pub(super) fn tail_rec_param_name(name: &str) -> String {
   format!("_tailrec_param_{name}")
 }
 
